@@ -179,6 +179,20 @@ func runC20(w *World) {
 		}
 		return o
 	}
+	// Sequential prologue (recorded in the history like any other operation): a
+	// peer that is added and deleted again before Serve must never operate.
+	var ghost *added
+	lifecycleEarly := w.Draw(4, "lifecycle")
+	if lifecycleEarly != 0 && w.Chance(1, 2, "prologue") {
+		nextCfg++
+		ghost = &added{key: 0, cfg: nextCfg, port: 179}
+		ip := netip.MustParseAddr(keys[0])
+		record(98, c20in{"add", 0, ghost.cfg, true}, func() c20out {
+			return c20out{Err: errClass(e.Srv.AddPeer(corebgp.PeerConfig{RemoteAddress: ip, LocalAS: 65001, RemoteAS: uint32(ghost.cfg)}, w.NewPlug("ghost"), ctl(ghost)))}
+		})
+		record(98, c20in{Op: "del", Key: 0}, func() c20out { return c20out{Err: errClass(e.Srv.DeletePeer(ip))} })
+		w.Probe("prologue-add-delete-before-serve")
+	}
 	nclients := 2 + w.Draw(3, "nclients")
 	busy := nclients
 	for cl := 0; cl < nclients; cl++ {
@@ -199,7 +213,13 @@ func runC20(w *World) {
 					cfgID := nextCfg
 					a := &added{key: key, cfg: cfgID, passive: w.Chance(1, 3, "passive"), port: Pick(w, "port", 179, 1179, 1, 65535)}
 					cfg := corebgp.PeerConfig{RemoteAddress: ip, LocalAS: 65001, RemoteAS: uint32(cfgID)}
-					opts := []corebgp.PeerOption{corebgp.WithPort(a.port), corebgp.WithHoldTime(Pick(w, "hold", uint16(90), 0, 3)), corebgp.WithIdleHoldTime(30 * time.Second), ctl(a)}
+					var opts []corebgp.PeerOption
+					if w.Chance(1, 4, "overridden-invalid") {
+						// an invalid value that a later option overrides: the last one wins
+						opts = append(opts, Pick(w, "ovr", corebgp.WithHoldTime(1), corebgp.WithHoldTime(2), corebgp.WithPort(0), corebgp.WithPort(70000)))
+						w.Probe("valid-add-with-overridden-invalid-option")
+					}
+					opts = append(opts, corebgp.WithPort(a.port), corebgp.WithHoldTime(Pick(w, "hold", uint16(90), 0, 3)), corebgp.WithIdleHoldTime(30*time.Second), ctl(a))
 					if a.passive {
 						opts = append(opts, corebgp.WithPassive())
 					}
@@ -249,11 +269,11 @@ func runC20(w *World) {
 						cfg.RemoteAS = 0
 						opts = append(opts, corebgp.WithLocalAddress(netip.MustParseAddr(la)))
 					case "hold-1":
-						opts = append(opts, corebgp.WithHoldTime(1))
+						opts = append(opts, corebgp.WithHoldTime(90), corebgp.WithHoldTime(1))
 					case "hold-2":
 						opts = append(opts, corebgp.WithHoldTime(2))
 					case "port-0":
-						opts = append(opts, corebgp.WithPort(0))
+						opts = append(opts, corebgp.WithPort(179), corebgp.WithPort(0))
 					case "port-negative":
 						opts = append(opts, corebgp.WithPort(-1))
 					case "port-65536":
@@ -300,7 +320,7 @@ func runC20(w *World) {
 		})
 	}
 	// server lifecycle
-	lifecycle := w.Draw(4, "lifecycle") // 0 never served, 1 serve early, 2 serve late, 3 serve and close mid-way
+	lifecycle := lifecycleEarly // 0 never served, 1 serve early, 2 serve late, 3 serve and close mid-way
 	w.Go("lifecycle", func() {
 		if lifecycle == 0 {
 			return
@@ -438,9 +458,18 @@ func runC20(w *World) {
 			}
 		}
 	}
+	if ghost != nil && len(ghost.dials) > 0 {
+		w.Violate("C20/behaviour/deleted-before-serve-peer-dials", "a peer that was added and deleted again before Serve made %d outbound attempt(s)", len(ghost.dials))
+		return
+	}
 	if lifecycle != 0 {
 		if lifecycle != 3 {
 			e.FinishRun()
+		}
+		w.Quiesce()
+		if lt := w.LibTasksAlive(); len(lt) > 0 && e.CloseC != nil && e.CloseC.Returned {
+			w.Violate("C20/behaviour/peer-running-after-close", "%d corebgp goroutine(s) still alive after Close returned (a peer added around Close was started but never stopped?), e.g. %s at %s", len(lt), lt[0].ID, lt[0].Site)
+			return
 		}
 		s2 := w.CallAsync("ServeAgain", func() error { return e.Srv.Serve(nil) })
 		w.WaitUntil("c20.serveagain", 5*time.Second, s2.Done)
